@@ -157,6 +157,23 @@ func (e *cenv) ident(name string) Value {
 		return v
 	}
 	fx := e.fx
+	if e.con != nil {
+		for _, l := range e.con.Lets {
+			if l.Label == name {
+				ex, err := parseCached(l.Expr)
+				if err != nil {
+					cfail("let %s: %v", name, err)
+				}
+				e.depth++
+				if e.depth > 30 {
+					cfail("let %s: recursion", name)
+				}
+				v := e.eval(ex)
+				e.depth--
+				return v
+			}
+		}
+	}
 	if e.fn != nil {
 		if e.body && !e.inOld {
 			if a := fx.cellByName(e.fn, name); a != nil {
